@@ -7,13 +7,15 @@ From Verif Require Import Base.Bytestr gen.Tables Lex.LexModel Front.Squeeze Fro
 Open Scope N_scope.
 
 (* Any history of calls on one transpiler object yields, call by call, what a fresh object yields. *)
+From Verif Require Import Facts.C14Facts.
+
 Theorem C14_history : forall st cs,
   run_history st cs = map (fun c => transpile (c_env c) (c_path c) (c_target c)) cs.
-Proof. intros st cs. revert st. induction cs as [|c cs IH]; intro st; [reflexivity|]. cbn [run_history step map]. f_equal. apply IH. Qed.
+Proof. exact C14_history_proof. Qed.
 Print Assumptions C14_history.
 
 (* In particular the two targets never influence each other and repetition changes nothing. *)
 Theorem C14_interleaving : forall st c1 c2 cs,
   nth 0 (run_history st (c1 :: c2 :: c1 :: cs)) Failed = nth 2 (run_history st (c1 :: c2 :: c1 :: cs)) Failed.
-Proof. intros. rewrite C14_history. reflexivity. Qed.
+Proof. exact C14_interleaving_proof. Qed.
 Print Assumptions C14_interleaving.
